@@ -53,7 +53,7 @@ Definition known_C17_py_dup (t : table_def) : bool :=
    || has_dup (py_pascal_case (t_name t) :: map (fun e => py_pascal_case (fst e)) (enum_cols t))
    || has_dup (map c_name (t_columns t)))%bool.
 
-(* `from sqlalchemy import ` with nothing after it: no column type, FK, index ... contributes a name *)
+(* former class of C17-py-empty-sqlalchemy-import (fixed by 661b98e; statistics only): nothing contributes a name *)
 Definition known_C17_py_empty_import (t : table_def) : bool :=
   match sa_inserts t with [] => true | _ => false end.
 
@@ -101,35 +101,7 @@ Definition known_C17_py_text (t : table_def) : bool :=
                         | CForeignKey _ _ rt rcs _ _ => existsb (has_any [dq; bs; cr; lf]) (rt :: rcs)
                         | _ => false end) (t_constraints t))%bool.
 
-(* SQLModel uses text("...") for a default that is not a call, a boolean, a quoted literal or a number
-   (sqlmodel/mod.rs:396-401) but imports `text` only when some default contains '(' (103-109, 150-152) *)
-Fixpoint all_digits (s : string) : bool :=
-  match s with EmptyString => true | String a r => (is_ascii_digit a && all_digits r)%bool end.
-Definition nonempty_digits (s : string) : bool := (negb (String.eqb s "") && all_digits s)%bool.
-Definition strip_sign (s : string) : string :=
-  match s with String a r => if (Ascii.eqb a "+" || Ascii.eqb a "-")%bool then r else s | _ => s end.
-(* str::parse::<f64>: [sign] (inf | infinity | nan | digits [. digits] [e [sign] digits] | . digits ...) *)
-Definition looks_f64 (s : string) : bool :=
-  let u := strip_sign s in
-  let l := lower u in
-  if (String.eqb l "inf" || String.eqb l "infinity" || String.eqb l "nan")%bool then true
-  else
-    let (mant, expo) := match split_on "e"%char l with
-                        | [m] => (m, None)
-                        | [m; e] => (m, Some e)
-                        | _ => ("", Some "x")
-                        end in
-    let mant_ok := match split_on "."%char mant with
-                   | [i] => nonempty_digits i
-                   | [i; f] => (all_digits i && all_digits f && negb (String.eqb i "" && String.eqb f ""))%bool
-                   | _ => false
-                   end in
-    let exp_ok := match expo with None => true | Some e => nonempty_digits (strip_sign e) end in
-    (mant_ok && exp_ok)%bool.
-Definition sqlmodel_uses_text_fallback (d : default_value) : bool :=
-  let s := default_to_sql d in
-  (negb (contains_char "("%char s) && negb (String.eqb s "true") && negb (String.eqb s "false")
-   && negb (starts_with "'" s) && negb (starts_with """" s) && negb (looks_f64 s))%bool.
+(* former class of C17-py-sqlmodel-text-import (fixed by e0ae11e; statistics only): no default contains '(' but some
+   default is wrapped in text("...") — before the fix `text` was then used without being imported *)
 Definition known_C17_py_sqlmodel_text (t : table_def) : bool :=
-  (negb (has_server_default t)
-   && existsb (fun c => match c_default c with Some d => sqlmodel_uses_text_fallback d | None => false end) (t_columns t))%bool.
+  (negb (has_server_default t) && sqlmodel_needs_text t)%bool.
